@@ -5,6 +5,7 @@ import Driver.Codec
 import Driver.Topic
 import Driver.Fanout
 import Driver.PubSub
+import Driver.ReqRep
 
 /-! `drv`: one case per input line, one result per output line (see /verif/DESIGN.md, section 3.2). -/
 
@@ -17,6 +18,7 @@ def step (line : String) : String :=
   | "bdec" :: rest => Driver.Wire.run "bdec" rest
   | "fan" :: rest => Driver.Fanout.run rest
   | "ps" :: rest => Driver.PubSub.run rest
+  | "rr" :: rest => Driver.ReqRep.run rest
   | "tn" :: rest => Driver.Topic.run "tn" rest
   | "tc" :: rest => Driver.Topic.run "tc" rest
   | op :: rest =>
